@@ -75,6 +75,14 @@ CHECKS["C20"] = dict(
     design="5/C20, 3.5, appendix B",
 )
 
+CHECKS["C09"] = dict(
+    engine="E2-history-bfs",
+    technique="explicit-state BFS over call histories on the real integrator / generator objects, canonical state hashing, differential oracle against fresh objects",
+    text="Three machines. (1) One real CiderNumInt-family object per feature family is driven through every history (depth 3 quick / 4 thorough) over 13 operations: restricted and unrestricted calls with one, two or three density matrices, another molecule, a new grids object, the same grids object rebuilt in place, a tiny memory budget (several blocks), reset; after every history the last operation's (nelec, excsum, vmat) must equal the same operation on fresh objects, batch elements must equal separate calls, and all caller-owned arrays must be bit-identical. (2) One real NLDF generator is driven through every get_features/get_potential history (depth 4, both spins, two densities, two potentials, both plan types) against the reference model 'the potential belongs to the last feature pass of that spin' realised on fresh generators, with inputs checked for in-place modification. (3) Evaluator chunking around the internal chunk size and aliasing of exponent functions, feature maps, plans and SDMX generators.",
+    note="History depth bounded; PySCF-internal state not in the canonical key; 1e-11 relative.",
+    design="5/C09",
+)
+
 NOT_YET = {}
 
 
